@@ -522,6 +522,17 @@ func globExpected(pattern string, files []string) []string {
 
 func componentCase(c *Case) (*WF, string) { return componentCaseKind(c, "") }
 
+// componentCaseWellFormed: as componentCase, for checks that need the workflow
+// to complete (no path of a file that does not exist).
+func componentCaseWellFormed(c *Case) (*WF, string) {
+	w, kind := componentCaseKind(c, "")
+	if w.Ghost != "" {
+		w.Sources[w.Ghost] = "source " + w.Ghost + "\n"
+		w.Ghost = ""
+	}
+	return w, kind
+}
+
 // componentCaseKind: force != "" fixes the kind of component (the draw is made all the same).
 func componentCaseKind(c *Case, force string) (*WF, string) {
 	t := c.Tape
@@ -807,6 +818,15 @@ func componentCaseKind(c *Case, force string) (*WF, string) {
 			Params: []ParamSpec{{Name: "x", From: &e}},
 			Outs:   []OutSpec{{Name: "o0", Pattern: "{i:a}.{p:x}.use.o0"}}})
 		w.Nodes[s].Rec = true
+		if n > 0 && t.Choose(simrt.StGen, 4, 0) == 1 {
+			// one of the given paths names a file that does not exist: the source has
+			// to pass it on like the others (its consumer then fails) - it must not
+			// quietly leave it out
+			fs := w.Nodes[s].Files
+			k := t.Choose(simrt.StGen, len(fs), 0)
+			delete(w.Sources, fs[k])
+			w.Ghost = fs[k]
+		}
 	}
 	return w, kind
 }
@@ -867,6 +887,14 @@ func init() {
 			}
 			if inc.Sim.End == simrt.EndDeadlock {
 				return Viol("component-deadlock", kind, "workflow around %s never returns: %s", kind, endDesc(inc))
+			}
+			if w.Ghost != "" {
+				c.Fault("missing-source-file")
+				if completedOK(inc) {
+					n := len(execKeys(inc.Sim.Shell.Trace, "exit", 0))
+					return Viol("source-items-dropped", kind, "FileSource was given %v, of which %s does not exist; the workflow reported completion after %d task(s): the path was left out instead of being passed on", w.NodeByName("src0").Files, w.Ghost, n)
+				}
+				return OK() // (stopping because the consumer cannot read the file is the expected end)
 			}
 			if !completedOK(inc) {
 				if kind == "splitter" && inc.Sim.End == simrt.EndExit {
